@@ -14,10 +14,16 @@ import (
 
 // Resumable workers: each worker processes item indices i ≡ shard (mod n), i >= VERIF_RESUME,
 // emitting {"start":i} before and {"done":i,...} after each item. If a worker dies (CPU limit,
-// out of memory, fatal error) the parent records the in-flight item as a death and restarts the
-// worker after it. Used where the property under test is "terminates without crashing".
+// out of memory, fatal error) the in-flight item is first retried in a FRESH worker process
+// starting at that item: a death that is a property of the item (a crash or non-termination the
+// input causes) repeats there, a death caused by what the worker process accumulated over the
+// thousands of earlier items (address-space limit reached by leftover informer goroutines) does
+// not. Only a death that repeats is reported; the worker then resumes after the item. Used where the property under test is "terminates without crashing".
 
 const ResumeEnv = "VERIF_RESUME"
+
+// RetriedDeaths counts worker deaths that did not repeat when the item was re-run in a fresh process.
+var RetriedDeaths int
 
 func ResumeFrom() int {
 	v, _ := strconv.Atoi(os.Getenv(ResumeEnv))
@@ -77,8 +83,9 @@ func RunResumableWorkers(n, items int, memLimitKB int, onLine func(worker int, l
 		go func(shard int) {
 			defer wg.Done()
 			resume := 0
+			retried := -1
 			for restarts := 0; ; restarts++ {
-				if restarts > items+1 {
+				if restarts > 2*items+2 {
 					errs[shard] = fmt.Errorf("worker %d: too many restarts", shard)
 					return
 				}
@@ -133,6 +140,14 @@ func RunResumableWorkers(n, items int, memLimitKB int, onLine func(worker int, l
 				if inflight < 0 {
 					errs[shard] = fmt.Errorf("worker %d died outside an item: %v\n%s", shard, werr, stderrBuf.String())
 					return
+				}
+				if retried != inflight {
+					retried = inflight
+					resume = inflight
+					cbMu.Lock()
+					RetriedDeaths++
+					cbMu.Unlock()
+					continue
 				}
 				cbMu.Lock()
 				onDeath(Death{Item: inflight, Reason: fmt.Sprint(werr), Stderr: stderrBuf.String()})
